@@ -64,7 +64,7 @@ ASSUMPTIONS = [
     "rules are cached per process in the module global breezy.rules._per_user_searcher (built at import from the rules path of that moment): every run writes its rules file to rules.rules_path() under its own BRZ_HOME and calls rules.reset_rules() (runs of one worker are sequential, ISOLATION=thread); filters._stack_cache maps (name, value) to immutable stacks and needs no reset",
     "oracle = the table of `brz help eol`: a setting stores LF (native, lf, crlf) or CRLF (*-with-crlf-in-repo) and checks out LF (native, lf, native-/lf-with-crlf-in-repo) or CRLF (crlf, crlf-with-crlf-in-repo); 'exact' and content with a NUL byte are never converted. Applied by the model as: split at every CRLF or LF, join with the target ending",
     "what 'canonical' means is narrowed to where the documentation is unambiguous: text without NUL and without the byte sequence CR CR LF (a bare CR directly before a CRLF). For such text every prediction is exact (what commit stores, what checkout/revert/update write, what is read back, that a fresh checkout reports no changes). Bare CRs elsewhere are allowed and must pass through untouched",
-    "content with CR CR LF (reachable only from the byte-soup generator) is NOT asserted against the property: breezy's converters are not idempotent there (CR CR LF -> CR LF -> LF), so commit can store text that a fresh checkout reports as modified (see the final report). For such files the model takes what breezy read / stored / wrote as given and only checks that conversion touched nothing but CRs directly in front of an LF (contents equal after collapsing CR* LF to LF) and that all views agree with each other (get_file_text, sha1, iter_changes, commit)",
+    "content with CR CR LF (reachable only from the byte-soup generator) is NOT asserted against the property while the guard 'crcrlf' is on (GUARDS; lifted in VERIF_UNGUARDED of the runs or, once known_findings.json has an open entry [C45, 'known-defect', 'crcrlf'], in 20% of them: then a fresh checkout that reports changes fails with that signature): breezy's converters are not idempotent there (CR CR LF -> CR LF -> LF), so commit can store text that a fresh checkout reports as modified (see the final report). For such files the model takes what breezy read / stored / wrote as given and only checks that conversion touched nothing but CRs directly in front of an LF (contents equal after collapsing CR* LF to LF) and that all views agree with each other (get_file_text, sha1, iter_changes, commit)",
     "every write gives the file a length no earlier content of the run had on disk or in the repository (padding with letters; 32-byte bands per write), so nothing asserted depends on the dirstate stat cache; the real clock is left alone",
     "update is only generated when it cannot conflict: no pending adds, and no file that is locally modified was changed on the branch since the tree's basis; revert runs with backups=False; commit with allow_pointless=True, explicit revision ids, file ids, timestamps and committer",
     "a file whose canonical reading equals the basis is not rewritten by revert/update even if its bytes on disk differ (e.g. CRLF spelling under eol=lf): the property only speaks about canonical content",
@@ -72,6 +72,18 @@ ASSUMPTIONS = [
 ]
 STEP_CAP = 400000
 ISOLATION = "thread"
+
+# Behaviour of the code under test that this check found and does not assert while the guard
+# is on (see ASSUMPTIONS).  Lifted in VERIF_UNGUARDED of the runs, or in 20% of the runs once
+# known_findings.json has an open entry [C45, "known-defect", guard].
+GUARDS = {
+    # the eol converters are not idempotent on CR CR LF: commit (read converter) stores
+    # text that is not a fixed point of write-then-read, so a fresh checkout of that
+    # revision reports the file as modified
+    "crcrlf": True,
+}
+P_UNGUARDED = float(os.environ.get("VERIF_UNGUARDED", "0") or 0)
+P_LIFT = 0.2
 
 LF, CRLF, NUL = b"\n", b"\r\n", b"\x00"
 SETTINGS = ["native", "lf", "crlf", "native-with-crlf-in-repo", "lf-with-crlf-in-repo", "crlf-with-crlf-in-repo", "exact"]
@@ -184,6 +196,10 @@ class World:
                     if v == token:
                         layer[p] = value
 
+    def at(self, op):
+        """Revision index of a checkout (clipped to the tip, so that shrinking may drop commits)."""
+        return min(op["at"], self.tip())
+
     def tip(self):
         return len(self.revs) - 1
 
@@ -204,7 +220,7 @@ class World:
         if o == "checkout":
             if op["t"] != len(self.trees) or len(self.trees) >= MAX_TREES:
                 return False
-            return 0 <= op["at"] < len(self.revs) and op.get("accel", 0) < len(self.trees)
+            return 0 <= op["at"] and op.get("accel", 0) < len(self.trees)
         if op["t"] >= len(self.trees):
             return False
         t = self.trees[op["t"]]
@@ -234,8 +250,9 @@ class World:
         """Applies op; returns the set of paths whose bytes on disk the operation wrote."""
         o = op["o"]
         if o == "checkout":
-            texts = self.revs[op["at"]][1]
-            t = {"basis": op["at"], "ver": set(texts), "disk": {}, "read": {}, "junk": set()}
+            at = self.at(op)
+            texts = self.revs[at][1]
+            t = {"basis": at, "ver": set(texts), "disk": {}, "read": {}, "junk": set()}
             for p, r in texts.items():
                 t["disk"][p] = self.wt_form(p, r)
                 t["read"][p] = r if not is_opaque(t["disk"][p]) else self.opaque()
@@ -346,7 +363,27 @@ def gen_content(rng, world, t, p, n):
     return x, kind
 
 
+def lifted_guards():
+    from simkit import findings
+
+    out = set()
+    for e in findings.load(PROPERTY):
+        sg = e.get("signature") or []
+        if e.get("status") == "open" and len(sg) >= 3 and sg[0] == PROPERTY and sg[1] == "known-defect" and sg[2] in GUARDS:
+            out.add(sg[2])
+    return sorted(out)
+
+
 def generate(rng, tier):
+    x = rng.random()
+    unguarded = sorted(GUARDS) if x < P_UNGUARDED else lifted_guards() if x < P_LIFT else []
+    plan = _generate(rng, tier)
+    if unguarded:
+        plan["unguarded"] = unguarded
+    return plan
+
+
+def _generate(rng, tier):
     s = rng.choice(SETTINGS)
     s2 = rng.choice(SETTINGS) if rng.random() < 0.7 else None
     w = World(s, s2)
@@ -437,7 +474,7 @@ def read_disk(root, p):
         return f.read()
 
 
-def verify(sim, w, ti, tree, op, wrote=()):
+def verify(sim, w, ti, tree, op, wrote=(), unguarded=()):
     """Compare working tree `ti` with the model (and substitute what the model left open)."""
     t = w.trees[ti]
     ctx = "tree %d after %s" % (ti, json.dumps({k: v for k, v in (op or {"o": "init"}).items() if k != "x"}, sort_keys=True))
@@ -516,6 +553,11 @@ def verify(sim, w, ti, tree, op, wrote=()):
                 tag = "fresh_checkout_changes" if kind == "checkout" else "changes"
                 detail = "%s: iter_changes reports modified %r, model %r; %r (eol=%s): on disk %r, canonical %r, basis %r" % (ctx, sorted(got_mod), sorted(exp_mod), p, w.setting(p), t["disk"].get(p), t["read"].get(p), btexts.get(p))
                 fail(sim, tag, sig(p) + ["spurious" if p in got_mod else "missed"], detail)
+            if kind == "checkout" and exp_mod and "crcrlf" in unguarded:
+                # consistent with what was read and stored, but the property read literally ("a freshly
+                # checked-out tree with eol filters reports no changes") does not hold for this revision
+                p = sorted(exp_mod)[0]
+                sim.fail("fresh_checkout_changes", [PROPERTY, "known-defect", "crcrlf"], "%s: the fresh checkout reports %r as modified: %r (eol=%s): repository text %r, written to disk as %r, read back as %r" % (ctx, sorted(exp_mod), p, w.setting(p), btexts.get(p), t["disk"].get(p), t["read"].get(p)))
             hc = tree.has_changes()
             if bool(hc) != bool(exp_mod or exp_add):
                 fail(sim, "has_changes", [kind], "%s: has_changes() = %r, model: modified %r added %r" % (ctx, hc, sorted(exp_mod), sorted(exp_add)))
@@ -545,6 +587,7 @@ def execute(sim, plan):
     scratch = os.environ["VERIF_SCRATCH"]
     T.relativise_log(sim, os.path.join(scratch, "t0"))
     s, s2 = plan["s"], plan.get("s2")
+    unguarded = set(plan.get("unguarded", ()))
     write_rules(s, s2)
     w = World(s, s2)
     tree0 = T.make_tree(sim, "bzr", "t0")
@@ -565,7 +608,7 @@ def execute(sim, plan):
         try:
             if o == "checkout":
                 root = os.path.join(scratch, "t%d" % ti)
-                rev = w.revs[op["at"]][0].encode()
+                rev = w.revs[w.at(op)][0].encode()
                 accel = trees[op["accel"]] if op.get("use_accel") else None
                 trees[0].branch.create_checkout(root, revision_id=rev, lightweight=True, accelerator_tree=accel)
                 trees.append(T.open_tree(root, "bzr"))
@@ -600,7 +643,7 @@ def execute(sim, plan):
         wrote = w.do(op)
         sim.event("op", i, json.dumps(label, sort_keys=True), _h(op.get("x", "")))
         sim.probe("op_" + o)
-        verify(sim, w, ti, trees[ti], op, wrote)
+        verify(sim, w, ti, trees[ti], op, wrote, unguarded)
         if o == "commit":
             check_last_changed(sim, w, ti, trees[ti], op)
             did["commit"] += 1
